@@ -45,6 +45,8 @@ func (o Op) Label() string {
 		return fmt.Sprintf("%s(%s)", o.K, o.Sub)
 	case "reconfig":
 		return fmt.Sprintf("reconfig(%s,%s)", o.Sub, o.Tgt)
+	case "stream":
+		return fmt.Sprintf("stream(%s,%s,%s)", o.Sub, o.Tgt, o.Sel)
 	case "streamModack":
 		return fmt.Sprintf("streamModack(%s,%s,%v)", o.Sub, o.Sel, o.D)
 	case "updateTopic":
@@ -277,6 +279,17 @@ func (m *Model) Prepare(op Op, now time.Time) (Call, bool) {
 		return c, true
 	case "updateSub", "modifyPush", "updateTopic", "updateSubDL", "reconfig":
 		return c, true
+	case "stream":
+		s := m.liveSub(op.Sub)
+		if s == nil {
+			return c, false
+		}
+		if op.Tgt == "plain" {
+			return c, true
+		}
+		ids, ok := m.selectIDs(s, op.Sel)
+		c.AckIDs = ids
+		return c, ok
 	case "ack", "modack", "nack", "acknack", "streamModack":
 		s := m.Subs[op.Sub]
 		if s == nil {
